@@ -310,7 +310,6 @@ func runC04(c C04Case, cs *kit.CaseStats) error {
 			}
 		}
 	}()
-	known := func(id types.BlockID) bool { _, ok := node.CM.State(id); return ok }
 
 	poll := func(si int, s *shadow, maxN int) error {
 		from := s.index
@@ -391,7 +390,7 @@ func runC04(c C04Case, cs *kit.CaseStats) error {
 	for si, st := range c.Steps {
 		switch {
 		case st.Submit != nil:
-			_, blocks, states, validated := tr.ResolveBatch(*st.Submit, known)
+			_, blocks, states, validated := tr.ResolveBatch(*st.Submit, node.ValidatedParent)
 			if len(blocks) == 0 {
 				continue
 			}
